@@ -62,6 +62,157 @@ func c17NoCommentConstructed(r *an.Run) {
 	r.Min("functions scanned for comment construction", 150)
 }
 
+// filterSite describes where a comment list is filtered: function g, how to
+// recognise the list being filtered and the two interval bounds inside g, and
+// the value that becomes the new list.
+type filterSite struct {
+	g      *ssa.Function
+	isList func(ssa.Value) bool // the slice value being filtered
+	isLo   func(ssa.Value) bool // interval start
+	isHi   func(ssa.Value) bool // interval end
+	result []ssa.Value          // value(s) that become the new list
+}
+
+// analyzeFilter checks R2 (only own elements, in order) and R3 (containment
+// table) for one filter site. key prefixes the obligation keys.
+func analyzeFilter(r *an.Run, key string, fs filterSite, pos token.Pos) {
+	g := fs.g
+	r.Rule("R2-comment-lists-only-shrink")
+	var il *an.IndexLoop
+	for _, l := range an.Loops(g) {
+		if x := an.AsIndexLoop(l); x != nil {
+			if c, ok := x.Bound.(*ssa.Call); ok && an.IsCallTo(c, "builtin:len") && fs.isList(c.Call.Args[0]) {
+				il = x
+			}
+		}
+	}
+	if !r.Check(il != nil && il.Start == 0 && il.Step == 1, key+"|list-loop", pos, "the new list is built by a forward loop over the old list of the same comment group") {
+		return
+	}
+	var app *ssa.Call
+	for b := range il.Loop.Blocks {
+		for _, in := range b.Instrs {
+			if c, ok := in.(*ssa.Call); ok && an.IsCallTo(c, "builtin:append") {
+				app = c
+			}
+		}
+	}
+	elem := func(v ssa.Value) bool {
+		u, ok := v.(*ssa.UnOp)
+		if !ok {
+			return false
+		}
+		ia, ok := u.X.(*ssa.IndexAddr)
+		return ok && ia.Index == il.Index && fs.isList(ia.X)
+	}
+	good := app != nil
+	if good {
+		good = false
+		for v := range an.BackSlice(app.Call.Args[1], an.SliceOpts{ThroughMemory: true}) {
+			if elem(v) {
+				good = true
+			}
+		}
+		for v := range an.BackSlice(app.Call.Args[1], an.SliceOpts{ThroughMemory: true}) {
+			if c, ok := v.(*ssa.Call); ok && !an.IsCallTo(c, "builtin:append") {
+				good = false
+			}
+		}
+	}
+	r.Check(good, key+"|appends-own-elements", pos, "only elements of the same list are appended, in their original order: no comment is invented, duplicated or moved")
+	okVal := len(fs.result) > 0
+	for _, res := range fs.result {
+		found := false
+		for v := range an.BackSlice(res, an.SliceOpts{}) {
+			if app != nil && v == ssa.Value(app) {
+				found = true
+			}
+		}
+		if !found && !an.IsNilConst(res) {
+			okVal = false
+		}
+	}
+	r.Check(okVal, key+"|stores-filtered", pos, "what becomes the new list is that filtered slice")
+
+	r.Rule("R3-containment-test")
+	posOf := func(v ssa.Value, method string) bool {
+		c, ok := v.(*ssa.Call)
+		return ok && an.IsCallTo(c, "(*go/ast.Comment)."+method) && elem(c.Call.Args[0])
+	}
+	classify := func(c ssa.Value) string {
+		cmp, ok := c.(*ssa.BinOp)
+		if !ok {
+			return ""
+		}
+		switch {
+		case posOf(cmp.X, "Pos") && fs.isLo(cmp.Y):
+			switch cmp.Op {
+			case token.GEQ:
+				return "pos>=start"
+			case token.LSS:
+				return "not:pos>=start"
+			}
+		case posOf(cmp.X, "End") && fs.isHi(cmp.Y):
+			switch cmp.Op {
+			case token.LEQ:
+				return "end<=end"
+			case token.GTR:
+				return "not:end<=end"
+			}
+		case fs.isLo(cmp.X) && posOf(cmp.Y, "Pos"):
+			switch cmp.Op {
+			case token.LEQ:
+				return "pos>=start"
+			case token.GTR:
+				return "not:pos>=start"
+			}
+		case fs.isHi(cmp.X) && posOf(cmp.Y, "End"):
+			switch cmp.Op {
+			case token.GEQ:
+				return "end<=end"
+			case token.LSS:
+				return "not:end<=end"
+			}
+		}
+		return ""
+	}
+	hdr := il.Loop.Header
+	paths, err := an.EnumeratePathsFrom(hdr.Succs[0], classify, func(b *ssa.BasicBlock) bool { return b == hdr }, 256, false)
+	if err != nil {
+		r.Undecided(key+"|containment", pos, "cannot extract the containment test of the comment filter: %v", err)
+		return
+	}
+	get := func(p an.DPath, a string) (bool, bool) {
+		if v, ok := p.Atoms[a]; ok {
+			return v, true
+		}
+		if v, ok := p.Atoms["not:"+a]; ok {
+			return !v, true
+		}
+		return false, false
+	}
+	good = len(paths) >= 2
+	for _, p := range paths {
+		kept := false
+		for _, b := range p.Blocks {
+			if app != nil && b == app.Block() {
+				kept = true
+			}
+		}
+		lo, loK := get(p, "pos>=start")
+		hi, hiK := get(p, "end<=end")
+		inside := loK && lo && hiK && hi
+		outside := (loK && !lo) || (hiK && !hi)
+		if !(inside || outside) {
+			good = false
+		}
+		if inside && kept || outside && !kept {
+			good = false
+		}
+	}
+	r.Check(good, key+"|containment", pos, "a comment is dropped exactly when it lies entirely inside the changed interval: c.Pos() >= start && c.End() <= end (%d paths)", len(paths))
+}
+
 func c17FilterOnly(r *an.Run) {
 	nList := 0
 	for _, spec := range [][2]string{{mainP, "cleanupFilePos"}, {patchP, "cleanupFilePos"}} {
@@ -83,162 +234,80 @@ func c17FilterOnly(r *an.Run) {
 		}
 		nList++
 		cg := listStore.Addr.(*ssa.FieldAddr).X
-		// the loop over cg.List
-		var il *an.IndexLoop
-		for _, l := range an.Loops(f) {
-			if x := an.AsIndexLoop(l); x != nil {
-				if c, ok := x.Bound.(*ssa.Call); ok && an.IsCallTo(c, "builtin:len") {
-					if u, ok := c.Call.Args[0].(*ssa.UnOp); ok {
-						if fa, ok := u.X.(*ssa.FieldAddr); ok && fa.X == cg && fieldNameOf(fa) == "List" {
-							il = x
-						}
-					}
-				}
-			}
-		}
-		if !r.Check(il != nil && il.Start == 0 && il.Step == 1, short(f)+"|list-loop", listStore.Pos(), "the new list is built by a forward loop over the old list of the same comment group") {
-			continue
-		}
-		// the appended element is cg.List[i]
-		var app *ssa.Call
-		for b := range il.Loop.Blocks {
-			for _, in := range b.Instrs {
-				if c, ok := in.(*ssa.Call); ok && an.IsCallTo(c, "builtin:append") {
-					app = c
-				}
-			}
-		}
-		elem := func(v ssa.Value) bool {
+		isOwnList := func(v ssa.Value) bool {
 			u, ok := v.(*ssa.UnOp)
 			if !ok {
 				return false
 			}
-			ia, ok := u.X.(*ssa.IndexAddr)
-			if !ok || ia.Index != il.Index {
-				return false
-			}
-			lu, ok := ia.X.(*ssa.UnOp)
-			if !ok {
-				return false
-			}
-			fa, ok := lu.X.(*ssa.FieldAddr)
+			fa, ok := u.X.(*ssa.FieldAddr)
 			return ok && fa.X == cg && fieldNameOf(fa) == "List"
 		}
-		good := app != nil
-		if good {
-			good = false
-			for v := range an.BackSlice(app.Call.Args[1], an.SliceOpts{ThroughMemory: true}) {
-				if elem(v) {
-					good = true
+		isBound := func(field string) func(ssa.Value) bool {
+			return func(v ssa.Value) bool { return strings.HasSuffix(an.Path(v), "."+field) && !isAddr(v) }
+		}
+		site := filterSite{g: f, isList: isOwnList, isLo: isBound("Start"), isHi: isBound("End"), result: []ssa.Value{listStore.Val}}
+		var loArg, hiArg ssa.Value
+		// the filter may have been extracted into a private helper: cg.List = helper(cg.List, lo, hi)
+		if call, ok := listStore.Val.(*ssa.Call); ok {
+			if h := an.StaticCallee(call); h != nil && an.InModule(h) && h.Blocks != nil {
+				li := -1
+				for i, a := range call.Call.Args {
+					if isOwnList(a) {
+						li = i
+					}
 				}
-			}
-			// nothing else is appended
-			for v := range an.BackSlice(app.Call.Args[1], an.SliceOpts{ThroughMemory: true}) {
-				if c, ok := v.(*ssa.Call); ok && !an.IsCallTo(c, "builtin:append") {
-					good = false
+				if r.Check(li >= 0, short(f)+"|helper-gets-own-list", call.Pos(), "the filter helper %s is given the comment group's own list", short(h)) {
+					var posParams []int
+					for i, a := range call.Call.Args {
+						if an.ShortType(a.Type()) == "token.Pos" {
+							posParams = append(posParams, i)
+						}
+					}
+					if len(posParams) == 2 {
+						loArg, hiArg = call.Call.Args[posParams[0]], call.Call.Args[posParams[1]]
+						lp, hp := h.Params[posParams[0]], h.Params[posParams[1]]
+						if isBound("End")(loArg) && isBound("Start")(hiArg) {
+							lp, hp = hp, lp
+							loArg, hiArg = hiArg, loArg
+						}
+						var results []ssa.Value
+						for _, ret := range an.Returns(h) {
+							results = append(results, ret.Results[0])
+						}
+						site = filterSite{g: h, isList: func(v ssa.Value) bool { return v == ssa.Value(h.Params[li]) },
+							isLo: func(v ssa.Value) bool { return v == ssa.Value(lp) }, isHi: func(v ssa.Value) bool { return v == ssa.Value(hp) }, result: results}
+						r.Check(isBound("Start")(loArg) && isBound("End")(hiArg), short(f)+"|helper-gets-interval", call.Pos(), "the helper is given the start and the end of the changed interval")
+					} else {
+						r.Undecided(short(f)+"|helper-bounds", call.Pos(), "cannot identify the interval bounds handed to %s", short(h))
+					}
 				}
 			}
 		}
-		r.Check(good, short(f)+"|appends-own-elements", listStore.Pos(), "only elements of the same list are appended, in their original order: no comment is invented, duplicated or moved")
-		// the stored value is the accumulated slice (phi of nil / append results)
-		okVal := false
-		for v := range an.BackSlice(listStore.Val, an.SliceOpts{}) {
-			if v == ssa.Value(app) {
-				okVal = true
-			}
-		}
-		r.Check(okVal, short(f)+"|stores-filtered", listStore.Pos(), "what is stored back is that filtered slice")
-
-		// R3 containment
+		analyzeFilter(r, short(f), site, listStore.Pos())
 		r.Rule("R3-containment-test")
-		posOf := func(v ssa.Value, method string) bool {
-			c, ok := v.(*ssa.Call)
-			return ok && an.IsCallTo(c, "(*go/ast.Comment)."+method) && elem(c.Call.Args[0])
-		}
-		bound := func(v ssa.Value, field string) bool {
-			p := an.Path(v)
-			return strings.HasSuffix(p, "."+field) && !isAddr(v)
-		}
-		classify := func(c ssa.Value) string {
-			cmp, ok := c.(*ssa.BinOp)
-			if !ok {
-				return ""
-			}
-			switch {
-			case posOf(cmp.X, "Pos") && bound(cmp.Y, "Start"):
-				switch cmp.Op {
-				case token.GEQ:
-					return "pos>=start"
-				case token.LSS:
-					return "not:pos>=start"
-				}
-			case posOf(cmp.X, "End") && bound(cmp.Y, "End"):
-				switch cmp.Op {
-				case token.LEQ:
-					return "end<=end"
-				case token.GTR:
-					return "not:end<=end"
-				}
-			case bound(cmp.X, "Start") && posOf(cmp.Y, "Pos"):
-				switch cmp.Op {
-				case token.LEQ:
-					return "pos>=start"
-				case token.GTR:
-					return "not:pos>=start"
-				}
-			case bound(cmp.X, "End") && posOf(cmp.Y, "End"):
-				switch cmp.Op {
-				case token.GEQ:
-					return "end<=end"
-				case token.LSS:
-					return "not:end<=end"
-				}
-			}
-			return ""
-		}
-		hdr := il.Loop.Header
-		paths, err := an.EnumeratePathsFrom(hdr.Succs[0], classify, func(b *ssa.BasicBlock) bool { return b == hdr }, 256, false)
-		if err != nil {
-			r.Undecided(short(f)+"|containment", listStore.Pos(), "cannot extract the containment test of the comment filter: %v", err)
-			continue
-		}
-		get := func(p an.DPath, a string) (bool, bool) {
-			if v, ok := p.Atoms[a]; ok {
-				return v, true
-			}
-			if v, ok := p.Atoms["not:"+a]; ok {
-				return !v, true
-			}
-			return false, false
-		}
-		good = len(paths) >= 2
-		for _, p := range paths {
-			kept := false
-			for _, b := range p.Blocks {
-				if app != nil && b == app.Block() {
-					kept = true
-				}
-			}
-			lo, loK := get(p, "pos>=start")
-			hi, hiK := get(p, "end<=end")
-			inside := loK && lo && hiK && hi
-			outside := (loK && !lo) || (hiK && !hi)
-			if !(inside || outside) {
-				good = false // a path decides without testing both bounds
-			}
-			if inside && kept || outside && !kept {
-				good = false
-			}
-		}
-		r.Check(good, short(f)+"|containment", listStore.Pos(), "a comment is dropped exactly when it lies entirely inside the changed interval: c.Pos() >= dr.Start && c.End() <= dr.End (%d paths)", len(paths))
 		// both bounds refer to the same interval variable
 		roots := map[string]bool{}
-		for b := range il.Loop.Blocks {
-			if iff, ok := b.Instrs[len(b.Instrs)-1].(*ssa.If); ok {
-				if cmp, ok := iff.Cond.(*ssa.BinOp); ok {
-					for _, v := range []ssa.Value{cmp.X, cmp.Y} {
-						if p := an.Path(v); strings.HasSuffix(p, ".Start") || strings.HasSuffix(p, ".End") {
-							roots[p[:strings.LastIndex(p, ".")]] = true
+		collect := func(v ssa.Value) {
+			if p := an.Path(v); strings.HasSuffix(p, ".Start") || strings.HasSuffix(p, ".End") {
+				roots[p[:strings.LastIndex(p, ".")]] = true
+			}
+		}
+		if loArg != nil {
+			collect(loArg)
+			collect(hiArg)
+		} else {
+			inner := an.LoopOf(f, listStore.Block())
+			for _, b := range f.Blocks {
+				if inner != nil && !inner.Blocks[b] && !b.Dominates(listStore.Block()) {
+					continue
+				}
+				if iff, ok := b.Instrs[len(b.Instrs)-1].(*ssa.If); ok {
+					if cmp, ok := iff.Cond.(*ssa.BinOp); ok {
+						for _, v := range []ssa.Value{cmp.X, cmp.Y} {
+							if c, isCall := v.(*ssa.Call); isCall && strings.HasPrefix(an.CalleeName(c), "(*go/ast.Comment).") {
+								collect(cmp.X)
+								collect(cmp.Y)
+							}
 						}
 					}
 				}
@@ -249,13 +318,12 @@ func c17FilterOnly(r *an.Run) {
 		noPos := false
 		for _, c := range an.EqCases(f, func(v ssa.Value) bool { return strings.HasSuffix(an.Path(v), ".Start") && !isAddr(v) }) {
 			if k, ok := an.ConstInt(c.Key); ok && k == 0 {
-				// the equal edge must not reach the filter loop in that iteration
 				outer := an.LoopOf(f, c.If.Block())
 				if outer != nil && c.Target == outer.Header {
 					noPos = true
 				} else if outer != nil {
 					reach := an.Reach([]*ssa.BasicBlock{c.Target}, func(b *ssa.BasicBlock, i int) bool { return b.Succs[i] == outer.Header })
-					if !reach[hdr] {
+					if !reach[listStore.Block()] {
 						noPos = true
 					}
 				}
